@@ -60,6 +60,9 @@ def cx(e: ast.AST) -> str:
             a = atoms(e, True)
             return "&".join(sorted(a))
         return f"{type(e.op).__name__}({cx(e.operand)})"
+    if isinstance(e, ast.BoolOp) and any(isinstance(v, ast.Constant) and not isinstance(v.value, bool) for v in e.values):
+        # a value expression (`x or "default"`), not a condition: keep the operands and their order
+        return ("orv(" if isinstance(e.op, ast.Or) else "andv(") + ",".join(cx(v) for v in e.values) + ")"
     if isinstance(e, (ast.Compare, ast.BoolOp)):
         return "&".join(sorted(atoms(e, True)))
     if isinstance(e, (ast.Tuple, ast.List)):
